@@ -326,6 +326,13 @@ impl MessageType for RequestHeadType {
 impl<T: MessageType> MessageEncoder<T> {
     /// Encode chunk.
     pub fn encode_chunk(&mut self, msg: &[u8], buf: &mut BytesMut) -> io::Result<bool> {
+        // An empty data chunk carries nothing and must not be mistaken for the end of the body
+        // (with chunked encoding it would emit the terminating chunk); the end of the body is
+        // signalled through `encode_eof`.
+        if msg.is_empty() {
+            return Ok(false);
+        }
+
         self.te.encode(msg, buf)
     }
 
